@@ -16,4 +16,9 @@ CHECKS: dict[str, dict] = {
         "text": "Decides, for every input and history at once, the structural clauses that model conformance needs: Worklist keeps _map[x] = position of x in _stack (index read before append, delete paired with tombstone, tombstones never returned, emptiness after discarding tombstones); union-find returns a fixed point of _parent, compresses only to that root, re-parents root(rhs) under root(lhs) for the left-biased union and sums counts on the new root; the generic wrapper forwards arguments in order; ScopedDict's three lookup forms use one presence predicate. It does not decide full conformance with the abstract models for every history (that needs enumeration, a different technique).",
         "note": "Trusted: Python semantics of list/dict operations; the representation (_stack/_map with _MISSING tombstones, _parent/_count) — if it changes the check stops with ANALYSIS-ERROR rather than passing.",
     },
+    "C24": {
+        "technique": _T + "visited-set typestate on the CFG, iteration-domain derivation, lattice/fixpoint shape rules",
+        "text": "Decides the structural clauses every region CFG needs: the DFS marks the start block, tests-and-marks each successor individually (no duplicate enqueue for multi-edges), re-pushes a block before its successors and returns only entries popped as visited; dominance predecessor sets are restricted to reachable blocks; entry={entry}, others=all blocks; the change flag is monotone within a sweep; the meet is {b} | intersection over predecessors; strict dominance excludes identity. It does not compare against a path-based reference on concrete graphs.",
+        "note": "Trusted: Python set/list semantics; the algorithm shape (iterative dominator sets, explicit-stack DFS) — a different algorithm stops the check with ANALYSIS-ERROR.",
+    },
 }
